@@ -154,8 +154,10 @@ package asset
 //@ func interface Repository.GetSince
 //@ attr refinement = asset.InMemoryRepository, asset.FileSystemRepository
 // ghost: gcnt(self, "ngetok") counts the reads that succeeded (definitional; lets a caller say what it did with each)
-//@ attr counts = ngetok
+// gcnt(self, "nget") counts every read, successful or not
+//@ attr counts = ngetok, nget
 //@ ensures "ghost-counter" gcnt(self, "ngetok") == old(gcnt(self, "ngetok")) + (result1 == nil ? 1 : 0)
+//@ ensures "ghost-counter" gcnt(self, "nget") == old(gcnt(self, "nget")) + 1
 //@ ensures[C10,C12,C13] result1 == nil ==> has(view(self), p0) && consumed(result0) == 0 && closed(result0) && len(result0) == cntsince(view(self)[p0], p1, len(view(self)[p0]))
 //@ ensures[C10,C12,C13] result1 == nil ==> (forall k :: 0 <= k && k < len(view(self)[p0]) ==> (view(self)[p0][k].Date >= p1 ==> result0[cntsince(view(self)[p0], p1, k)] == view(self)[p0][k]))
 //@ ensures[C10,C12] result1 != nil ==> len(result0) == 0
@@ -187,6 +189,10 @@ package asset
 //@ requires 0 <= s.Delay && s.Delay <= 9223372036
 //@ requires forall a, b :: 0 <= a && a < b && b < len(s.Assets) ==> s.Assets[a] != s.Assets[b]
 //@ ensures[C12] "no-error-means-every-asset-synced" result == nil ==> (forall j :: 0 <= j && j < len(s.Assets) ==> synced(source, target, s.Assets[j], defaultStartDate))
+// whatever the target says about an asset (it may not know it yet), the asset is asked of the source: an asset is given
+// up only when reading the source or appending to the target fails
+//@ ensures[C12] "every-requested-asset-is-read-from-the-source" gcnt(source, "nget") - old(gcnt(source, "nget")) == len(s.Assets)
+//@ loop#1 invariant gcnt(source, "nget") - old(gcnt(source, "nget")) == consumed(jobs)
 //@ loop#1 use cntsince_lt(view(source)[name], lastDate, _, len(view(source)[name]))
 //@ loop#1 use cntsince_nonneg(view(source)[name], lastDate)
 //@ loop#1 invariant len(jobs) == len(s.Assets) && (forall j :: 0 <= j && j < len(jobs) ==> jobs[j] == s.Assets[j])
